@@ -47,21 +47,30 @@ def stub_check_random_state(seed):
 # ----------------------------------------------------------------------------
 class DistSq(SymReal):
     """A Euclidean distance known through its square. Comparisons are rewritten to
-    squared form (d <= m  <=>  m >= 0 and d^2 <= m^2); arithmetic use creates the
-    sqrt symbol."""
+    squared form (d <= m  <=>  m >= 0 and d^2 <= m^2); any arithmetic use (access to
+    the term) creates the sqrt symbol with r >= 0 and r^2 = d^2."""
 
-    __slots__ = ("sq", "_made")
+    __slots__ = ("sq", "_made", "_root")
 
     def __init__(self, sq):
         self.sq = sq
         self._made = False
-        r = E.SQRT(sq)
-        SymReal.__init__(self, r)
+        self._root = E.SQRT(sq)
+        self.tag = None
+
+    @property
+    def t(self):
+        self._ensure()
+        return self._root
+
+    @t.setter
+    def t(self, v):
+        self._root = v
 
     def _ensure(self):
         if not self._made:
             self._made = True
-            E.ENGINE.add(self.t >= 0, self.t * self.t == self.sq)
+            E.ENGINE.add(self._root >= 0, self._root * self._root == self.sq)
 
     def _cmpsq(self, o, op):
         if isinstance(o, DistSq):
@@ -99,11 +108,8 @@ class DistSq(SymReal):
     def __hash__(self):
         return id(self)
 
-    def _bin(self, o, f, swap=False):
-        self._ensure()
-        if isinstance(o, DistSq):
-            o._ensure()
-        return SymReal._bin(self, o, f, swap)
+    def __repr__(self):
+        return "DistSq(sqrt(%s))" % self.sq
 
 
 class StubKDTree:
